@@ -1658,9 +1658,11 @@ DEP_KW: T.List[T.Tuple[str, str]] = [
 OPTION_VALUES = {'buildtype': ['release', 'debug', 'plain', 'minsize'], 'warning_level': ['0', '1', '2', '3'], 'werror': ['true', 'false'],
                  'optimization': ['0', '2', 's'], 'default_library': ['static', 'shared', 'both'], 'unity': ['on', 'off'],
                  'prefix': ['/opt/x', '/usr'], 'strip': ['true', 'false'], 'layout': ['mirror', 'flat'], 'b_lto': ['true', 'false'],
-                 'debug': ['true', 'false'], 'unity_size': ['4', '8'], 'backend': ['ninja', 'none'], 'backend_max_links': ['2', '3']}
-# option names that are a proper prefix of another option name: a default-options command on the short one must leave the long one alone
-OPTION_SIBLINGS = {'unity': 'unity_size', 'backend': 'backend_max_links'}
+                 'debug': ['true', 'false'], 'unity_size': ['4', '8'], 'backend': ['ninja', 'none'], 'backend_max_links': ['2', '3'],
+                 'b_ndebug': ['true', 'false', 'if-release'], 'bindir': ['bin', 'xbin'], 'sbindir': ['sbin', 'xsbin']}
+# option names that are a proper prefix - or a proper SUFFIX - of another option name: a default-options command on the short one
+# must leave the long one alone
+OPTION_SIBLINGS = {'unity': 'unity_size', 'backend': 'backend_max_links', 'debug': 'b_ndebug', 'bindir': 'sbindir'}
 DEP_NAMES = ['zlib', 'threads', 'glib-2.0', 'libfoo', 'openssl', 'dl']
 
 
@@ -2633,10 +2635,10 @@ class TreeGen:
                 op = self.pick(['set', 'set', 'delete'])
                 keys: T.List[str] = []
                 have = [opt_split(x)[0] for x in entries if isinstance(x, str)]
-                have = [x for x in have if x in OPTION_VALUES and x != 'b_lto']
+                have = [x for x in have if x in OPTION_VALUES and x not in ('b_lto', 'b_ndebug')]
                 for _ in range(1 + self.i(2)):
-                    # b_lto: a base option, unknown to the rewriter without a compiler ("Unknown options")
-                    kk = self.pick(have) if have and self.chance(50) else self.pick([x for x in sorted(OPTION_VALUES) if x not in ('b_lto',)])
+                    # b_lto, b_ndebug: base options, unknown to the rewriter without a compiler ("Unknown options")
+                    kk = self.pick(have) if have and self.chance(50) else self.pick([x for x in sorted(OPTION_VALUES) if x not in ('b_lto', 'b_ndebug')])
                     if kk not in keys and kk not in nonlit:
                         keys.append(kk)
                 if not keys:
